@@ -34,6 +34,9 @@ CHECKS = {
  "C10": ("exploration", "linearizability checking (porcupine) of recorded AddClient/DelClient/SetLocked/read histories against a sequential admission model, with lock-site schedule perturbation, under -race",
    "Short concurrent histories on one group per history, all configurations of max-clients x autolock x autokick x time window, recorded at the call boundary and checked against the admission model; direct invariants (non-operators never exceed max-clients; a refused client is announced to nobody). Held on the schedules observed.",
    "Schedules are sampled, not enumerated (perturbation 0-90 % at every instrumented lock operation); lock changes are issued only by threads holding a joined operator, as the protocol requires.", "5/C10"),
+ "C11": ("exploration", "effect-at-other-parties monitor over recorded websocket/HTTP event logs: 24 privileged message kinds x membership states x permission sets against the real server, with a FIFO action-queue barrier for logical quiescence",
+   "Every privileged message kind (chat, captions, user messages, op/unop/present/unpresent/shutup/unshutup, kick, identify, lock/unlock, clearchat, setdata, subgroups, record/unrecord, maketoken/edittoken/listtokens, offer) is sent in every membership state (never joined, eight kinds of refused join, joined, left, kicked) under 20 permission sets, one fresh group per case; its effect is read at the OTHER parties (nonce at an observer, joined/user change at the target and all members, kicked + socket closed, probe joins after lock, RECORDING member, token store) and must appear iff the required permission is held; a refusal leaves every other party with no new event; token delegation (never more than held, own group, expiry), cross-group token edits/listing, revocation followed by retries (incl. bursts racing the revocation), WHIP over HTTP with wrong/missing bearer, and random 15-step sequences against a membership/permission model. Held on the cases run.",
+   "Watchdogs (90 s) never produce a violation: interrupted scenarios are counted as undecided, more than 2 + 0.1 % of them makes the run inconclusive. includeSubgroups (ignored by the parser) and the 404 for an unknown WHIP bearer are accepted as refusals.", "5/C11"),
  "C13": ("exploration", "Go race detector + instrumented-mutex wait-for/lock-order monitor + exactly-once/FIFO/lost-wakeup checker over unbounded.Channel",
    "Child processes run fake-client storms on the group API, real websocket clients with statistics pollers, WHIP and recording clients joining/closing/kicked, shutdown with every member kind, and producers vs galene's queue consumption pattern, under -race and with perturbation at every lock operation; race reports in the property's anchor files and actual wait-for cycles are violations. Held on the schedules observed.",
    "Deadlocks on channels/I-O are outside the wait-for graph (watchdog => inconclusive); 'eventually seen' restated as queue empty at quiescence.", "5/C13"),
